@@ -1750,6 +1750,13 @@ GRIupdateRIG(int32 hdf_file_id, ri_info_t *img_ptr)
     /* write out RIG */
     if (img_ptr->rig_ref == DFTAG_WILDCARD)
         img_ptr->rig_ref = Htagnewref(hdf_file_id, DFTAG_RIG);
+    else if (HDcheck_tagref(hdf_file_id, DFTAG_RIG, img_ptr->rig_ref) == 1) {
+        /* the group is rewritten under its old tag/ref and may have grown (a palette was
+           added to a stored image): give it new space instead of writing over the old,
+           shorter element, which fails */
+        if (HDreuse_tagref(hdf_file_id, DFTAG_RIG, img_ptr->rig_ref) == FAIL)
+            HGOTO_ERROR(DFE_INTERNAL, FAIL);
+    }
     if (DFdiwrite(hdf_file_id, GroupID, DFTAG_RIG, img_ptr->rig_ref) == FAIL)
         HGOTO_ERROR(DFE_GROUPWRITE, FAIL);
 
